@@ -203,7 +203,7 @@ func (ex *Exec) push(st *State) {
 
 // Run explores all paths of the entry function.
 func (ex *Exec) Run() {
-	st := &State{Heap: map[int]Value{}, Types: map[int]types.Type{}, Occ: map[string]int{}, Aux: map[auxKey]int{}, Globals: map[*ssa.Global]int{}}
+	st := &State{Heap: map[int]Value{}, Types: map[int]types.Type{}, Occ: map[string]int{}, Aux: map[auxKey]int{}, Globals: map[*ssa.Global]int{}, Cur: -1}
 	st.ID = int(atomic.AddInt64(&ex.stateCtr, 1))
 	// optional package inits
 	var initFns []*ssa.Function
@@ -311,6 +311,9 @@ func (m *M) runState() {
 			ex.cond.Broadcast()
 			return
 		}
+		if st.StartThreads {
+			m.startThreads()
+		}
 		st.Steps++
 		if st.Steps > ex.Cfg.MaxSteps {
 			st.Status = Aborted
@@ -354,6 +357,12 @@ func (m *M) stepSafe() {
 				st.Panic = &PanicInfo{V: v, Msg: e.msg}
 				st.PanicHold = 0
 				// the faulting instruction is skipped
+			case threadBlocked:
+				// the instruction (a Lock / Wait) could not complete: the thread blocks, it will re-execute the call
+				st.rollback()
+				st.logging = false
+				st.BlockedNow = &e
+				st.NeedSchedule = true
 			case goPark:
 				// a goroutine run inline blocks forever: discard its frames and continue the spawner
 				for len(st.Frames) > 0 {
@@ -394,12 +403,32 @@ func (m *M) stepSafe() {
 	}()
 	if st.Panic != nil && (st.PanicHold == 0 || len(st.Frames) < st.PanicHold) {
 		st.PanicHold = 0
+		if st.inThreadMode() && len(st.Frames) == 0 {
+			st.Status = Panicked
+			return
+		}
 		m.unwindStep()
+		return
+	}
+	if st.inThreadMode() && (st.NeedSchedule || len(st.Frames) == 0) {
+		// the running thread finished or blocked (or the threads are just starting): pick the next one
+		st.beginInstr()
+		m.schedule()
+		st.logging = false
+		st.script = nil
+		if len(st.Frames) == 0 && !st.inThreadMode() {
+			st.Status = Done
+		}
 		return
 	}
 	f := st.top()
 	instr := f.Block.Instrs[f.PC]
 	st.beginInstr()
+	if m.maybePreempt(f, instr) {
+		st.logging = false
+		st.script = nil
+		return
+	}
 	if m.ex.Cfg.Debug {
 		fmt.Fprintf(os.Stderr, "[s%d d%d] %s: %s\n", st.ID, len(st.Frames), f.Fn.Name(), instr)
 	}
@@ -433,7 +462,7 @@ func (m *M) unwindStep() {
 	// no more defers in this frame: pop it
 	st.Frames = st.Frames[:len(st.Frames)-1]
 	if len(st.Frames) == 0 {
-		st.Status = Panicked
+		st.Status = Panicked // also for a thread: an escaping panic kills the process
 		return
 	}
 	if f.IsDeferCall {
@@ -1012,6 +1041,9 @@ func (m *M) popReturn(f *Frame, res Value) {
 	}
 	st.Frames = st.Frames[:len(st.Frames)-1]
 	if len(st.Frames) == 0 {
+		if st.inThreadMode() {
+			return // thread finished: the scheduler takes over at the next step
+		}
 		st.Status = Done
 		return
 	}
